@@ -82,6 +82,99 @@ fn edef(name: &str, variants: Vec<Variant>, fallback: Option<Fallback>) -> Def {
     Def::Enum { pre: vec![], name: name.into(), body: EnumBody { variants, fallback } }
 }
 
+/// Upper camel case of a snake-case name made of lower-case words (all the corpus uses).
+pub fn camel(s: &str) -> String {
+    s.split('_')
+        .filter(|w| !w.is_empty())
+        .map(|w| {
+            let mut c = w.chars();
+            let f = c.next().unwrap().to_ascii_uppercase();
+            format!("{f}{}", c.as_str())
+        })
+        .collect()
+}
+
+/// The inline types of a service with the names the language gives them:
+/// `<Service><Function>Args | Ok | Error` and `<Service><Event>Args`.
+pub fn inline_types(s: &gen::Service) -> Vec<(String, gen::TyOrInline)> {
+    let mut out = Vec::new();
+    for i in &s.items {
+        match i {
+            gen::Item::Fn(f) => match &f.body {
+                gen::FnBody::None => {}
+                gen::FnBody::Ok(x) => out.push((format!("{}{}Ok", s.name, camel(&f.name)), x.clone())),
+                gen::FnBody::Full { args, ok, err } => {
+                    for (suffix, p) in [("Args", args), ("Ok", ok), ("Error", err)] {
+                        if let Some(p) = p {
+                            out.push((format!("{}{}{}", s.name, camel(&f.name), suffix), p.ty.clone()));
+                        }
+                    }
+                }
+            },
+            gen::Item::Ev(e) => {
+                if let Some(x) = &e.ty {
+                    out.push((format!("{}{}Args", s.name, camel(&e.name)), x.clone()));
+                }
+            }
+        }
+    }
+    out
+}
+
+/// An inline type as the definition it stands for (None for a plain type).
+pub fn inline_as_def(name: &str, x: &gen::TyOrInline) -> Option<Def> {
+    match x {
+        gen::TyOrInline::Ty(_) => None,
+        gen::TyOrInline::Struct(_, b) => Some(Def::Struct { pre: vec![], name: name.to_string(), body: b.clone() }),
+        gen::TyOrInline::Enum(_, b) => Some(Def::Enum { pre: vec![], name: name.to_string(), body: b.clone() }),
+    }
+}
+
+fn part(ty: gen::TyOrInline) -> Option<gen::Part> {
+    Some(gen::Part { pre: vec![], ty })
+}
+
+/// The service of a chunk schema: per member type a function with a plain args type, an inline
+/// struct as ok and an inline enum as err, and an event carrying the type; both fallbacks.
+fn chunk_service(ci: usize, types: &[Ty]) -> Def {
+    let mut items = Vec::new();
+    for (ti, t) in types.iter().enumerate() {
+        let id = (ti as u32 + 1).to_string();
+        items.push(gen::Item::Fn(gen::Function {
+            pre: vec![],
+            name: format!("f{}", (b'a' + ti as u8) as char),
+            id: id.clone(),
+            body: gen::FnBody::Full {
+                args: part(gen::TyOrInline::Ty(t.clone())),
+                ok: part(gen::TyOrInline::Struct(vec![], StructBody { fields: vec![field("a", 1, true, t.clone()), field("b", 2, false, t.clone())], fallback: fb("more") })),
+                err: part(gen::TyOrInline::Enum(vec![], EnumBody { variants: vec![var("E", 1, Some(t.clone())), var("F", 2, None)], fallback: None })),
+            },
+        }));
+        items.push(gen::Item::Ev(gen::Event {
+            pre: vec![],
+            name: format!("e{}", (b'a' + ti as u8) as char),
+            id,
+            ty: Some(if ti % 2 == 0 {
+                gen::TyOrInline::Ty(t.clone())
+            } else {
+                gen::TyOrInline::Struct(vec![], StructBody { fields: vec![field("v", 7, false, t.clone())], fallback: None })
+            }),
+        }));
+    }
+    Def::Service(gen::Service {
+        pre: vec![],
+        name: "Api".into(),
+        uuid_pre: vec![],
+        uuid: format!("{UUID_BASE}{:04x}", 0xa000 + ci),
+        ver_pre: vec![],
+        version: (ci + 1).to_string(),
+        items,
+        fn_fb: fb("unknown_function"),
+        ev_fb: fb("unknown_event"),
+        ev_fb_first: ci % 2 == 1,
+    })
+}
+
 /// The member-type alphabet.
 pub fn type_alphabet(thorough: bool) -> Vec<Ty> {
     let mut v: Vec<Ty> = [
@@ -229,6 +322,7 @@ pub fn schemas(thorough: bool) -> Vec<CorpusSchema> {
             newer.push((format!("Ef{i}"), format!("En{i}")));
             defs.push(Def::Newtype { pre: vec![], name: format!("N{i}"), ty: t.clone() });
         }
+        defs.push(chunk_service(ci, types));
         out.push(CorpusSchema { name, schema: Schema { head: vec![gen::di("//! Generated corpus schema.")], imports: vec![gen::Import { pre: vec![], name: "dep".into() }], defs }, newer });
     }
     // a schema of odd shapes: many fields, boundary ids, raw identifiers, empty types, services
@@ -343,6 +437,7 @@ pub fn emit(dir: &Path, thorough: bool, package: &str) -> Result<Emitted, String
     let mut mac_rs = String::from("// generated by schemamc: the same schemas through aldrin::generate! (macro path)\n#![allow(dead_code, unused_imports, non_camel_case_types, non_snake_case, clippy::all)]\n\n");
     let mut table = String::from("// generated by schemamc\nuse crate::driver::{entry, Entry};\n\npub fn entries() -> Vec<Entry> {\n    let mut v = Vec::new();\n");
     let mut newer_json = serde_json::Map::new();
+    let mut services_tbl = String::new();
     let mut n_types = 0usize;
     for cs in &corpus {
         let toks = cs.schema.tokens();
@@ -356,7 +451,24 @@ pub fn emit(dir: &Path, thorough: bool, package: &str) -> Result<Emitted, String
                 consts.insert(format!("{}::{}", cs.name, name), v.parse().unwrap_or(0));
             }
         }
+        // inline types of services are data types of their own; services get an id entry
+        let mut all_defs: Vec<Def> = cs.schema.defs.clone();
         for d in &cs.schema.defs {
+            if let Def::Service(sv) = d {
+                for (n, x) in inline_types(sv) {
+                    if let Some(def) = inline_as_def(&n, &x) {
+                        all_defs.push(def);
+                    }
+                }
+                let _ = writeln!(
+                    services_tbl,
+                    "    v.push((\"{s}::{n}\", || crate::text::r#{s}::r#{n}Proxy::introspection().type_id(), || crate::mac::r#{s}::r#{n}Proxy::introspection().type_id()));",
+                    s = cs.name,
+                    n = sv.name
+                );
+            }
+        }
+        for d in &all_defs {
             let (name, desc) = match d {
                 Def::Struct { name, body, .. } => (
                     name,
@@ -400,6 +512,7 @@ pub fn emit(dir: &Path, thorough: bool, package: &str) -> Result<Emitted, String
             match d {
                 Def::Struct { body, .. } => body.fields.reverse(),
                 Def::Enum { body, .. } => body.variants.reverse(),
+                Def::Service(sv) => sv.items.reverse(),
                 _ => {}
             }
         }
@@ -431,6 +544,9 @@ pub fn emit(dir: &Path, thorough: bool, package: &str) -> Result<Emitted, String
             if matches!(d, Def::Struct { .. } | Def::Enum { .. } | Def::Newtype { .. }) {
                 let _ = writeln!(table, "    v.push((\"{s}::{n}\", aldrin::core::TypeId::compute::<crate::text::twin::r#{s}::r#{n}>));", s = cs.name, n = d.name());
             }
+            if let Def::Service(sv) = d {
+                let _ = writeln!(table, "    v.push((\"{s}::{n}\", || crate::text::twin::r#{s}::r#{n}Proxy::introspection().type_id()));", s = cs.name, n = sv.name);
+            }
         }
     }
     twin_rs.push_str("}\n");
@@ -440,6 +556,8 @@ pub fn emit(dir: &Path, thorough: bool, package: &str) -> Result<Emitted, String
     let svc_code = generate_text("services", SERVICES_SCHEMA, &[("dep", dep_src.as_str())])?;
     let _ = write!(text_rs, "pub mod r#services {{\n{svc_code}\n}}\n\n");
     let _ = writeln!(mac_rs, "aldrin::generate!(\"schemas/services.aldrin\", include = \"schemas\", introspection = true);");
+    table.push_str("    v\n}\n\n#[allow(clippy::type_complexity)]\npub fn service_entries() -> Vec<(&'static str, fn() -> aldrin::core::TypeId, fn() -> aldrin::core::TypeId)> {\n    let mut v: Vec<(&'static str, fn() -> aldrin::core::TypeId, fn() -> aldrin::core::TypeId)> = Vec::new();\n");
+    table.push_str(&services_tbl);
     table.push_str("    v\n}\n");
     write(&dir.join("src/text.rs"), &text_rs);
     write(&dir.join("src/mac.rs"), &mac_rs);
